@@ -4,6 +4,7 @@ import (
 	"bytes"
 	"fmt"
 	"reflect"
+	"sync"
 	"testing"
 
 	"github.com/bluenviron/gomavlib/v3/pkg/message"
@@ -277,6 +278,44 @@ func TestC04(t *testing.T) {
 			}
 		}
 		env.checkDecode(mi, p, true, "interleaved")
+	}
+	// independent decodes running concurrently on ONE ReadWriter (a Node shares the dialect's codecs between the reader
+	// goroutines of all its channels): each result must still be the reference decoding of its own payload
+	{
+		r := vh.Sub(seed, "c04-concurrent")
+		nTypes := vh.Pick(12, 120)
+		for k := 0; k < nTypes; k++ {
+			mi := types[r.Intn(len(types))]
+			if mi.Layout.SizeExt > 255 || mi.Layout.SizeExt < 4 {
+				continue
+			}
+			var wg sync.WaitGroup
+			for g := 0; g < 4; g++ {
+				wg.Add(1)
+				gr := r.Fork()
+				go func() {
+					defer wg.Done()
+					for i := 0; i < vh.Pick(400, 3000); i++ {
+						n := 1 + gr.Intn(mi.Layout.SizeExt) // mostly truncated payloads
+						p := gr.Bytes(n)
+						got, err := mi.RW.Read(&message.MessageRaw{ID: mi.Msg.GetID(), Payload: p}, true)
+						want, _ := mi.Layout.Decode(p, true)
+						rep.Eval(1)
+						if err != nil {
+							rep.Violation(fmt.Sprintf("msg=%s ver=2 what=concurrent", mi.Name), "decode failed: "+err.Error(), vh.Hex(p))
+							return
+						}
+						if eq, diff := mi.Layout.BitEqual(reflect.ValueOf(got), want); !eq {
+							rep.Violation(fmt.Sprintf("msg=%s ver=2 what=concurrent", mi.Name),
+								"a decode running concurrently with other decodes on the same ReadWriter returned another payload's data (field "+diff+")", vh.Hex(p))
+							return
+						}
+					}
+				}()
+			}
+			wg.Wait()
+			rep.Count("concurrent_decode_types", 1)
+		}
 	}
 	rep.Floor("types", 400)
 }
